@@ -6,7 +6,8 @@ R12.2 (value-flow normal form of the chunk-dtype plan + CFG) per data set on the
       more than 2 dimensions raises; the row counts of all mapped data sets are compared on their raw leading dimensions
       and a difference raises, before the first row is loaded.
 R12.3 (shared) IDENT <= 255 / strict ASCII (C06 R06.3), UVARI range (C06 R06.2), no masking before pack (C06 R06.1),
-      empty list either rejected or written with count 0 (C04 R04.2), big-endian on disk for every source order (C03 R03.2).
+      empty list either rejected or written with count 0 (C04 R04.2), big-endian on disk for every source order (C03 R03.2),
+      fixed-width label / FILE-HEADER text fields are refused when too long, never written longer (C01 R01.1, C09 R09.4).
 R12.4 (error discipline) every `except` handler in the package either raises or is one of the reviewed handlers, keyed
       by function, exception types and the statements it protects; a new swallowing handler, or a reviewed one that now
       covers more statements, is a violation.
@@ -187,6 +188,17 @@ def r12_3_shared(chk):
     from ..absint import Interp
     c06.r06_1_table(chk, Interp(chk.ix))
     c03.r03_2_byte_order(chk)
+    # fixed-width text fields: a value too long for the storage unit label is refused, never written as a longer label
+    # (C01 R01.1: exactly 80 bytes in field order on every non-raising path)
+    from . import c01
+    c01.r01_1_sul(chk, None)
+    # ... and the same for the two fixed-width values of the FILE-HEADER object (C09 R09.4 / C04 R04.5)
+    tmp9 = Check("C09", "quick", 0, chk.ix, chk.cg, quiet=True)
+    from . import c09
+    c09.r09_4_header(tmp9)
+    for o in tmp9.obs:
+        if o.key.startswith("file-header"):
+            chk.obs.append(o)
     for o in chk.obs[n0:]:
         o.rule = "R12.3"
     tmp = Check("C04", "quick", 0, chk.ix, chk.cg, quiet=True)
